@@ -112,7 +112,7 @@ def loop_phase(chk, b, wd, tier):
         text, steps, ends = replhist.render_history(p, h["hist"])
         for sc in scheds:
             jobs.append(("gen", h, sc, text if sc is None else gc_lines(text, ends, sc[0], sc[1])))
-    depths = [(600, 300)] if tier == "quick" else [(600, 300), (260, 250), (2000, 900)]
+    depths = [(600, 300)] if tier == "quick" else [(600, 300), (260, 250), (1000, 700)]
     for (dd, d2) in depths:
         text = DEEP_SESSION % {"d": dd, "d2": d2}
         ends = list(range(1, len(text.split("\n"))))
@@ -148,15 +148,22 @@ def loop_phase(chk, b, wd, tier):
         chk.case(("loop", kind, sc), nontrivial=sc is not None)
         if sc is None:
             if fault or len(proj) != 5 or "(Error)" in res["out"]:
-                raise vlib.MachineryError("the fixed session %s does not run without collection requests: rc=%s %s"
-                                          % (kind, res["rc"], res["out"][-600:]))
+                # (no collection was requested in this run: whatever stops it -- e.g. the C stack limit of the environment under
+                #  the deepest recursion -- is not the subject of C09; the session is left out and the fact recorded)
+                chk.extra.setdefault("fixed_sessions_not_usable", []).append({"session": kind, "rc": res["rc"]})
+                ref[kind] = None
+                continue
             ref[kind] = proj
+        elif ref[kind] is None:
+            continue
         elif fault or proj != ref[kind]:
             chk.violation("fixed deep-recursion session %s with collections requested after every step i with i mod %d = %d: %s"
                           % (kind, sc[0], sc[1], "the loop faulted or stopped (rc=%s)" % res["rc"] if fault else "program lines differ"),
                           {"schedule": sc, "input": text, "stdout": res["out"][-4000:], "rc": res["rc"], "expected_lines": ref[kind],
                            "got_lines": proj},
                           key={"kind": "loop-fault" if fault else "wrong-output", "route": "loop", "schedule": sc, "family": kind})
+    if tier == "quick" and not any(v for v in ref.values()):
+        raise vlib.MachineryError("no fixed deep-recursion session runs without collection requests")
     if nreq == 0:
         raise vlib.MachineryError("no collection request was honoured by the loop (`#int gc` not recognised?)")
     chk.traces += len(jobs)
